@@ -30,7 +30,7 @@ b136345 C01 edgelist
 43b8350 C01 skipgram
 939fb74 C06 skipgram
 fe5f8e4 C11 em_unit
-94f4955 C04 accumulate
+94f4955 C04 accumulate[cap=4
 0d972d0 C04 coo_sizes
 8ec50d7 C04 multiset_class
 b3243e3 C17 fit_transform_scaling[2x1
